@@ -2,7 +2,12 @@ package main
 
 // Term-level properties: C02 (unification), C08 (standard order, sorting), C16 (relational built-ins).
 
-import "strconv"
+import (
+	"os"
+	"strconv"
+	"strings"
+	"sync"
+)
 
 func pairsRun(c *checkCtx) {
 	r := c.mcHolds("GenPairs", "GenPairs_thorough.cfg", tlcOpts{})
@@ -55,6 +60,63 @@ func init() {
 				}
 				return ""
 			})
+			c.exhaustive = true
+		},
+	}
+}
+
+func init() {
+	plans["C16"] = &plan{
+		level: "model_checking",
+		rule: "Builtins.tla defines the relation of each of the 17 predicates declaratively over a universe generated from its wholes (atoms of <= 3 symbolic characters incl. a 2-byte and a 3-byte one, lists of <= 3 " +
+			"elements, integers 0..3 and near the 64-bit limits, compounds of arity 1-2, lists as compounds); TLC enumerates every tuple masked by every instantiation pattern the predicate's modes admit and computes the " +
+			"multiset of answers (SubsetLaw - instantiating an argument selects a sub-multiset -, ConcatLength, SubAtomSum, NthShift checked on the model); each call is run to exhaustion on the real interpreter and the " +
+			"answers are compared as multisets (member/select/nth: one answer per position); for infinite modes the first 5 answers in order. distinct_nontrivial = distinct calls with at least one unbound argument",
+		assume:  []string{"calls outside the modes (which must raise errors) belong to C05", "text is measured in characters: é and 日 are one character each"},
+		trusted: []string{"TLC", "Builtins.tla", "the concretisation of symbolic characters"},
+		run: func(c *checkCtx) {
+			groups := [][]string{{"atom_length", "atom_concat", "atom_chars", "atom_codes", "char_code", "succ", "between"}, {"sub_atom"}, {"append", "length", "member", "select"}, {"nth0", "nth1", "functor", "arg", "univ"}}
+			tmpl, err := os.ReadFile(root + "/spec/Builtins_T.cfg")
+			if err != nil {
+				infra("%v", err)
+			}
+			var wg sync.WaitGroup
+			res := make([]*tlcResult, len(groups))
+			var first interface{}
+			var mu sync.Mutex
+			for i, g := range groups {
+				wg.Add(1)
+				go func(i int, g []string) {
+					defer wg.Done()
+					defer func() {
+						if r := recover(); r != nil {
+							mu.Lock()
+							if first == nil {
+								first = r
+							}
+							mu.Unlock()
+						}
+					}()
+					cfg := strings.ReplaceAll(string(tmpl), "@PREDS@", `"`+strings.Join(g, `", "`)+`"`)
+					res[i] = c.mcHolds("Builtins", cfg, tlcOpts{workers: 4})
+				}(i, g)
+			}
+			wg.Wait()
+			if first != nil {
+				panic(first)
+			}
+			for _, r := range res {
+				cases, results := c.replay("builtins", r.cases, replayOpts{chunk: 8})
+				c.judge("builtins", cases, results, func(cs, res map[string]J) string {
+					for _, a := range cs["pat"].([]J) {
+						if a.([]J)[0] == "v" {
+							in, _ := res["input"].(string)
+							return in
+						}
+					}
+					return ""
+				})
+			}
 			c.exhaustive = true
 		},
 	}
